@@ -101,6 +101,14 @@ def run(chk):
     chk.guard(coin_kernels, chk, it)
     chk.guard(call_sites, chk, it)
     tv(chk)
+    # A-FRESH at the Melswap call sites: insert_coin leaves the counts alone when the coin id already exists, which is right
+    # only if the rewrite keeps the covenant hash.  The settlement functions rewrite output 0 of a request with its own covenant
+    # hash (C15 settlement kernels) and create the second withdrawal payout at index 1 -- a fresh id exactly because the
+    # withdrawal selector only passes single-output requests, and the deposit selector only passes requests whose two halves
+    # are still unspent.  Those selector claims are therefore part of this property's argument and are decided here as well.
+    from props import c15, batch as B
+    it2 = B.prepare(chk)
+    chk.guard(c15.selectors, chk, it2, only=('withdrawal', 'deposit'))
 
 
 def coin_kernels(chk, it):
